@@ -1218,3 +1218,58 @@ def object_state_rule(model, rep, r, rule):
     if not methods:
         raise AnalysisError("phase loop reaches no method")
     return ok
+
+
+def phase_param_rule(model, rep):
+    """inside the phase loop of solve() the phase is the loop variable: the `phase` parameter (the caller's request,
+    '' for all phases) must not be read there"""
+    r = roles(model)
+    rel = model.rel("system")
+    an = solve_anchors(model, r)
+    ploop = an["phase_loop"]
+    fn = an["fn"]
+    pname = "phase" if any(a.arg == "phase" for a in fn.args.kwonlyargs + fn.args.args) else None
+    if pname is None:
+        raise AnalysisError("solve() has no phase parameter")
+    ok = True
+    for s in ploop.body:
+        for n in ast.walk(s):
+            if isinstance(n, ast.Name) and n.id == pname and isinstance(n.ctx, ast.Load):
+                ok = False
+                rep.violation("R3", "system.System.solve", "%s:%d" % (rel, n.lineno),
+                              "the caller's `%s` argument is used inside the phase loop where the phase being solved is `%s`" % (pname, ploop.target.id),
+                              "phase parameter read in loop")
+    rep.instance("R3", "system.System.solve phase loop uses the loop variable only", "%s:%d" % (rel, ploop.lineno), ok)
+
+
+def set_sys_phases_rule(model, rep, rule):
+    """set_sys_phases(P) makes P the phase set: the registry is replaced wholesale by the argument (not merged into)"""
+    rel = model.rel("system")
+    fn = model.own_method("System", "set_sys_phases")
+    if fn is None:
+        raise AnalysisError("System.set_sys_phases not found")
+    arg = fn.args.args[1].arg
+    ok = False
+    other = []
+    for n in ast.walk(fn):
+        if isinstance(n, ast.Assign) and any(registry_of(t) == "phases" for t in n.targets):
+            v = ast.unparse(n.value).replace(" ", "")
+            if v in (arg, "dict(%s)" % arg, "%s.copy()" % arg, "{**%s}" % arg, "copy.deepcopy(%s)" % arg):
+                ok = True
+            else:
+                other.append("assigned from " + v)
+        if isinstance(n, ast.Call) and isinstance(n.func, ast.Attribute) and n.func.attr in MUTATORS and registry_of(n.func.value) == "phases":
+            other.append("modified in place by .%s()" % n.func.attr)
+        if isinstance(n, (ast.Assign, ast.AugAssign, ast.Delete)):
+            tg = n.targets if isinstance(n, (ast.Assign, ast.Delete)) else [n.target]
+            for t in tg:
+                if isinstance(t, ast.Subscript) and registry_of(t.value) is not None and registry_of(t.value) != "phases":
+                    other.append("also writes registry '%s'" % registry_of(t.value))
+                if registry_of(t) is not None and registry_of(t) != "phases":
+                    other.append("also replaces registry '%s'" % registry_of(t))
+    if other or not ok:
+        ok = False
+        rep.violation(rule, "system.System.set_sys_phases", "%s:%d" % (rel, fn.lineno),
+                      "the system phase set is not simply replaced by the argument (%s): phases dropped by the caller stay defined / other configuration changes" % ("; ".join(other) or "no wholesale assignment"),
+                      "phase set not replaced: " + ("; ".join(sorted(set(other))) or "none"))
+    rep.instance(rule, "system.System.set_sys_phases replaces the phase set", "%s:%d" % (rel, fn.lineno), ok)
